@@ -78,3 +78,12 @@ func TestC09Signers(t *testing.T) {
 		return runTSS(c, tssObs{c09: true}, func(w *tssWorld) bool { return w.c09Choice && w.c.N >= 4 })
 	})
 }
+
+// C11 (on chain): Signing.Message parses back to the request and the on-chain data; internal kinds are refused.
+func TestC11Chain(t *testing.T) {
+	prof := tssProfile{wDes: 12, wReset: 1, wReq: 26, wSig: 2, wSigAll: 8, wEnd: 28, wAct: 5, wOracle: 18, internal: true}
+	pbt.Check(t, "C11", func(rt *rapid.T) tssCase { return genTSSCase(rt, prof) }, func(c tssCase) *pbt.Verdict {
+		v := runTSS(c, tssObs{c11: true}, func(w *tssWorld) bool { return w.c11Checked >= 2 && (w.c11Oracle >= 1 || w.internalTried >= 1) })
+		return v
+	})
+}
